@@ -26,6 +26,9 @@ MULTILINE = [
     'fn f() -> i32\n{\n\tvar x: u8 = 1;\n\treturn:\n\t\tx\n}\n',
     'struct S\n{\n\ta: i32,\n\ta:\n\t\tu8,\n}\n',
     'fn f()\n{\n\tif 1\n\t\t== true\n\t{\n\t\tgoto end;\n\t}\n\tend:\n}\n',
+    'fn f()\n{\n\tvar a: i32 = 1;\n\tvar p: &i32 = &a;\n\tvar b: bool = true;\n\tb = cast\n\t\t&p as &u8;\n}\n',
+    'fn g(x: bool)\n{\n}\n\nfn f()\n{\n\tvar a: i32 = 1;\n\tvar p: &i32 = &a;\n\tg(cast\n\t\t&p\n\t\tas &u8);\n}\n',
+    'fn f()\n{\n\tvar a: i32 = 1;\n\tvar b: bool = true;\n\tb = a\n\t\tas\n\t\tu8;\n\tb = -\n\t\ta;\n\tb = !\n\t\ta;\n}\n',
 ]
 
 
